@@ -1,5 +1,6 @@
 import RsslVerif.Spec.SemVec
 import RsslVerif.Spec.SemMsl
+import RsslVerif.Spec.SemMslWT
 /-!
 # `Spec.SemMslVec` — what the emitted Metal *vector* syntax means (property C02, vector layer)
 
@@ -355,6 +356,82 @@ def evalArgs (M : Msl.MWorld) (env : VAst.VEnv) (ρ : VStore) : VAExprs → Stor
 end
 
 end VMsl
+
+/-! ## side conditions of the vector theorems
+
+Where the Metal reading is *known* to coincide with the typed semantics.  Excluded: one-component vector types (`float1` is
+emitted as `float`: the value would change representation), literal kinds, widening vector casts (the type checker has no
+such conversion), unary / binary arithmetic on *scalar* `bool` operands (C++ promotes them to `int`; covered by the oracle
+only, as in the scalar half) and the bare `Int32(i32::MIN)` constant as a scalar leaf (a `long` in Metal; known finding). -/
+namespace VOk
+
+def basicK : Ty → Bool
+  | .bool | .int | .uint | .float => true
+  | _ => false
+
+def arithK : Ty → Bool
+  | .int | .uint | .float => true
+  | _ => false
+
+def intK : Ty → Bool
+  | .int | .uint => true
+  | _ => false
+
+/-- a numeric type Metal can name: a basic kind, 2 to 4 components -/
+def tyOKM : VTy → Bool
+  | .sc k => basicK k
+  | .vec k n => basicK k && decide (2 ≤ n) && decide (n ≤ 4)
+
+/-- no widening of vectors -/
+def castFits : VTy → VTy → Bool
+  | .vec _ m, .vec _ n => decide (n ≤ m)
+  | _, _ => true
+
+def optTyOKM : Option VTy → Bool
+  | some t => tyOKM t
+  | none => false
+
+mutual
+def okMV (S : Ir.Side) (vvty : Var → VTy) : VExpr → Bool
+  | .sc e => Ir.okM S e && !Ir.isMin e && (match Ir.typeOf S.sig S.vty e with | some k => basicK k | none => false)
+  | .vvar id => S.vis (.loc id) && tyOKM (vvty (.loc id))
+  | .vglobal id => S.vis (.glob id) && tyOKM (vvty (.glob id))
+  | .cast ty e =>
+    okMV S vvty e && tyOKM ty &&
+      (match SemVec.VIr.typeOf S.sig S.vty vvty e with
+        | some te => tyOKM te && castFits te ty
+        | none => false)
+  | .swz e sl => okMV S vvty e && optTyOKM (SemVec.VIr.typeOf S.sig S.vty vvty e) && decide (sl.length ≤ 4)
+  | .ctor ty slots => tyOKM ty && okMVSlots S vvty slots
+  | .tern c t f => okMV S vvty c && okMV S vvty t && okMV S vvty f
+  | .op o args =>
+    okMVs S vvty args &&
+      (match args with
+        | .cons a .nil =>
+          (match irOpSem o, SemVec.VIr.typeOf S.sig S.vty vvty a with
+            | .un .lnot, _ => true
+            | .un _, some (.sc k) => arithK k
+            | _, _ => true)
+        | .cons a (.cons _ .nil) =>
+          (match irOpSem o, SemVec.VIr.typeOf S.sig S.vty vvty a with
+            | .bin m, some (.sc k) => if Msl.isShift m then intK k else arithK k
+            | _, _ => true)
+        | _ => true)
+def okMVs (S : Ir.Side) (vvty : Var → VTy) : VExprs → Bool
+  | .nil => true
+  | .cons e r => okMV S vvty e && okMVs S vvty r
+def okMVSlots (S : Ir.Side) (vvty : Var → VTy) : VSlots → Bool
+  | .nil => true
+  | .cons _ e r => okMV S vvty e && okMVSlots S vvty r
+end
+
+/-- the shape a value of a type has -/
+def shaped : VTy → VVal → Bool
+  | .sc _, .sc _ => true
+  | .vec _ n, .vec xs => decide (xs.length = n)
+  | _, _ => false
+
+end VOk
 
 /-! ## matrices: orientation
 
